@@ -2,6 +2,7 @@ package graphicsstate
 
 import (
 	"fmt"
+	"math"
 
 	"github.com/tsawler/tabula/model"
 )
@@ -302,12 +303,13 @@ func (gs *GraphicsState) GetFontSize() float64 {
 func (gs *GraphicsState) GetEffectiveFontSize() float64 {
 	baseFontSize := gs.Text.FontSize
 
-	// The text matrix is [a b c d e f]
-	// For vertical scaling (typical font size), we use element d (index 3)
-	// For horizontal scaling, we use element a (index 0)
-	// We take the maximum to handle both cases
-	verticalScale := abs(gs.Text.TextMatrix[3])   // d component
-	horizontalScale := abs(gs.Text.TextMatrix[0]) // a component
+	// The text matrix is [a b c d e f]. The text-space unit vectors (1,0) and
+	// (0,1) map to (a,b) and (c,d), so the horizontal and vertical scale factors
+	// are the lengths of those vectors. Using the lengths rather than |a| and |d|
+	// alone keeps the size correct for rotated text (a = d = 0 at 90 degrees).
+	tm := gs.Text.TextMatrix
+	horizontalScale := math.Sqrt(tm[0]*tm[0] + tm[1]*tm[1])
+	verticalScale := math.Sqrt(tm[2]*tm[2] + tm[3]*tm[3])
 
 	// Use the larger of the two scales
 	scale := verticalScale
@@ -321,12 +323,4 @@ func (gs *GraphicsState) GetEffectiveFontSize() float64 {
 // GetFontName returns the current font name
 func (gs *GraphicsState) GetFontName() string {
 	return gs.Text.FontName
-}
-
-// abs returns the absolute value
-func abs(x float64) float64 {
-	if x < 0 {
-		return -x
-	}
-	return x
 }
